@@ -8,6 +8,7 @@ pub mod c06;
 pub mod c09;
 pub mod c10;
 pub mod c12;
+pub mod c13;
 pub mod c14;
 pub mod common;
 pub mod issue;
@@ -53,6 +54,7 @@ pub fn generate(id: &str, thorough: bool, seed: u64, em: &mut Emitter) {
         "C10" => c10::generate(thorough, seed, em),
         "C11" => jwtk::generate_c11(thorough, seed, em),
         "C12" => c12::generate(thorough, seed, em),
+        "C13" => c13::generate(thorough, seed, em),
         "C14" => c14::generate(thorough, seed, em),
         "C16" => jwtk::generate_c16(thorough, seed, em),
         _ => panic!("unknown property {}", id),
@@ -66,6 +68,7 @@ pub fn execute(kind: &str, input: &Value) -> Value {
         "issue" => issue::exec_issue(input),
         "present" => present::exec_present(input),
         "bstep" => jwtk::exec_bstep(input),
+        "history" => c13::exec_history(input),
         "decode" => jwtk::exec_decode(input),
         _ => json!({"harness_error": format!("unknown kind {}", kind)}),
     }
